@@ -389,10 +389,16 @@ fn evaluate(spec: &Spec, prog: &Program, stack: &[u64], class: &str, key: &str, 
             let mut want: Vec<u64> = v.clone();
             want.extend_from_slice(rest);
             let depth = want.len();
-            while want.len() < 16 {
-                want.push(0);
+            // The VM's stack is conceptually zero-padded below its bottom and never shallower than
+            // 16: a procedure that temporarily holds fewer than 16 elements pulls such zeros in and
+            // pushes them back down later (u256::mul_unsafe does), which changes the VM-level depth
+            // but not the stack contents. Trailing zeros are therefore not significant; a real
+            // depth error shifts the (non-zero, unique) canary and is caught below.
+            let trim = |v: &[u64]| -> usize { v.iter().rposition(|&x| x != 0).map(|i| i + 1).unwrap_or(0) };
+            if got.len() != depth.max(16) {
+                cx.rep.count("vm_depth_zero_padding", &full);
             }
-            if got != want {
+            if got[..trim(&got)] != want[..trim(&want)] {
                 let res_ok = got.len() >= v.len() && got[..v.len()] == v[..];
                 let canary_ok = got.len() >= depth && got[v.len()..depth] == *rest;
                 let (sig, what) = if !res_ok {
@@ -402,6 +408,7 @@ fn evaluate(spec: &Spec, prog: &Program, stack: &[u64], class: &str, key: &str, 
                 } else {
                     ("depth-mismatch", "stack depth after the call is not as documented")
                 };
+                cx.rep.count("mismatch_shape", &format!("{full}/{sig}|{}", operand_shape(spec.kind, &stack[..ar])));
                 cx.rep.violation(
                     format!("{full}/{sig}"),
                     format!(
@@ -445,6 +452,35 @@ fn evaluate(spec: &Spec, prog: &Program, stack: &[u64], class: &str, key: &str, 
         }
         (Expect::Undefined, _) => {}
     }
+}
+
+/// coarse description of an operand tuple (evidence: which operand shapes mismatched)
+fn operand_shape(kind: Kind, ops: &[u64]) -> String {
+    let limb = |x: u64| match x {
+        0 => "0",
+        1 => "1",
+        M32 => "max",
+        x if x > M32 => "non-u32",
+        _ => "x",
+    };
+    let mut out = String::new();
+    for (i, &x) in ops.iter().enumerate() {
+        if i > 0 {
+            out.push(',');
+        }
+        if kind == Kind::Shift64 && i == 0 {
+            out.push_str(match x {
+                0 => "b=0",
+                1..=31 => "b<32",
+                32 => "b=32",
+                33..=63 => "b>32",
+                _ => "b>=64",
+            });
+        } else {
+            out.push_str(limb(x));
+        }
+    }
+    out
 }
 
 // OPERAND GENERATION
@@ -511,7 +547,7 @@ fn rand_pair(rng: &mut Rng8) -> (&'static str, u64, u64) {
             // a = q*b + r with r at the extremes (division boundary)
             let b = rand_bits(rng).max(1);
             let qmax = u64::MAX / b;
-            let q = if qmax == 0 { 0 } else { rand_bits(rng) % (qmax + 1) };
+            let q = if qmax == u64::MAX { rand_bits(rng) } else { rand_bits(rng) % (qmax + 1) };
             let r = match rng.gen_range(0..3) {
                 0 => 0,
                 1 => b - 1,
@@ -863,7 +899,26 @@ pub fn meta() -> Meta {
     }
 }
 
+/// glibc's default malloc returns every freed trace buffer to the OS (trim / munmap); with 16
+/// threads executing tiny programs this costs 5x more than the executions themselves. Keep freed
+/// memory in the arenas instead. Process-global, affects performance only.
+pub fn tune_allocator() {
+    #[cfg(all(target_os = "linux", target_env = "gnu"))]
+    {
+        extern "C" {
+            fn mallopt(param: i32, value: i32) -> i32;
+        }
+        static ONCE: std::sync::Once = std::sync::Once::new();
+        ONCE.call_once(|| unsafe {
+            mallopt(-1, 1 << 30); // M_TRIM_THRESHOLD
+            mallopt(-2, 64 << 20); // M_TOP_PAD
+            mallopt(-3, 32 << 20); // M_MMAP_THRESHOLD
+        });
+    }
+}
+
 pub fn run(cfg: &Cfg) -> Report {
+    tune_allocator();
     let specs = all_specs();
     let mut head = Report::new();
 
